@@ -392,6 +392,30 @@ pub fn one_run<U: ChalProof>(ctx: &Ctx, idx: u64, only: Option<(&str, Vec<MFault
             let cls: Vec<String> = fs.iter().map(|f| format!("{}={}", tree::path_class(&parse_path(&f.path)), f.what.split(':').next().unwrap_or(""))).collect();
             out.distinct.insert(crate::core::prng::fnv64(format!("{}:{}:{cls:?}", U::NAME, m.label).as_bytes()));
             out.count(if fs.len() == 1 { "fired_single_metadata_fault" } else { "fired_pair_metadata_faults" });
+            // verifier-side manifest (the structural description of the proof the verifier expects):
+            // any change of the fields it covers must make `matches` fail
+            if m.valid {
+                if let (Ok(exp), Ok(got)) = (serde_json::from_value::<U::Proof>(m.proof_tree.clone()), serde_json::from_value::<U::Proof>(t.clone())) {
+                    let proj = |v: &Value| -> Value {
+                        json!({
+                            "ext_degree": v["ext_degree"], "w": v["w_binomial"], "q": v["alu_quintic_trinomial"], "alu_variant": v["alu_variant"],
+                            "npo": v["non_primitives"].as_array().map(|a| a.iter().map(|e| json!([e["op_type"], e["air_variant"], e["public_values"].as_array().map(|p| p.len())])).collect::<Vec<_>>()),
+                        })
+                    };
+                    let differs = proj(&t) != proj(&m.proof_tree);
+                    match observe(|| U::manifest_matches(&exp, &got)) {
+                        Ok(Ok(())) if differs => out.violate(
+                            format!("manifest_accepts_contradicting_metadata:{}", cls.join("+")),
+                            format!("metadata {fs:?} changes what the verifier's manifest describes (degree / reduction / ALU variant / non-primitive table list) but VerifierManifest::matches returns Ok"),
+                            detail(&fs, "manifest"),
+                        ),
+                        Ok(Ok(())) => out.count("manifest_ok_unrelated_field"),
+                        Ok(Err(_)) if differs => out.count("manifest_rejects_contradiction"),
+                        Ok(Err(e)) => out.violate(format!("manifest_rejects_matching_proof:{}", cls.join("+")), format!("metadata {fs:?} leaves every manifest field unchanged but matches fails: {e}"), detail(&fs, "manifest")),
+                        Err(_) => out.count("manifest_check_panicked_counted_as_reject"),
+                    }
+                }
+            }
             match verdict::<U>(&t, &m.cfg) {
                 Err(_pm) => {
                     // a panicking native verifier does not accept: for this property that is a
@@ -481,12 +505,12 @@ pub fn main(ctx: &Ctx) -> i32 {
         runs,
         Spec {
             level: "fault_enumeration",
-            rule: "one run = a population of three circuit proofs (honest primitive-only proof under a packing swarm; an invalid-trace proof produced by the byzantine prover and rejected by the verifier; an honest proof of an add/sub/connect-only circuit, whose trace satisfies the ALU constraints under every reduction polynomial; an honest proof with Poseidon2 and recompose tables, D4 universes only) in U-KB4 / U-BB4 (7 of 12 runs) and BabyBear binomial D5, KoalaBear quintic D5, KoalaBear D8, KoalaBear D1, Goldilocks D2. Every metadata leaf outside `proof` (ext_degree, w_binomial, alu_quintic_trinomial, every TablePacking field, rows, alu_variant, every NonPrimitiveTableEntry field, stark_common commitment words / instance metadata / matrix_to_instance) is set to every value of a small well-formed set, option flipped, strings replaced, lists swapped / shortened / duplicated; plus sampled pairs; plus postcard and JSON round trips of every member. distinct = distinct (universe, member, field class, fault) combinations.",
+            rule: "one run = a population of three circuit proofs (honest primitive-only proof under a packing swarm; an invalid-trace proof produced by the byzantine prover and rejected by the verifier; an honest proof of an add/sub/connect-only circuit, whose trace satisfies the ALU constraints under every reduction polynomial; an honest proof with Poseidon2 and recompose tables, D4 universes only) in U-KB4 / U-BB4 (7 of 12 runs) and BabyBear binomial D5, KoalaBear quintic D5, KoalaBear D8, KoalaBear D1, Goldilocks D2. Every metadata leaf outside `proof` (ext_degree, w_binomial, alu_quintic_trinomial, every TablePacking field, rows, alu_variant, every NonPrimitiveTableEntry field, stark_common commitment words / instance metadata / matrix_to_instance) is set to every value of a small well-formed set, option flipped, strings replaced, lists swapped / shortened / duplicated; plus sampled pairs; plus postcard and JSON round trips of every member; for valid members a VerifierManifest built from the untouched proof must reject every fault that changes a field it describes. distinct = distinct (universe, member, field class, fault) combinations.",
             exhaustive: true,
             assumptions: vec!["exhaustive over single metadata faults from the stated value set for each sampled proof; pairs sampled".into(), "verifier = verify_all_tables::<EF> with the verifier's own registered tables (no commitment binding here: the property is about native verification)".into()],
             components_real: vec!["BatchStarkProof serde impls (serde_json, postcard)", "BatchStarkProof::validate", "verify_all_tables", "prove_all_tables"],
             components_stub: vec![],
-            not_covered: vec!["re-proving under an altered EF (adversarial variant of DESIGN §5 C16)", "VerifierManifest::matches", "in-circuit verdict after round trip"],
+            not_covered: vec!["re-proving under an altered EF (adversarial variant of DESIGN §5 C16)", "in-circuit verdict after round trip"],
             extra: json!({}),
         },
     )
